@@ -129,6 +129,7 @@ def run(ck: core.Check):
         ck.cov["generated_dict_access_sites"] = len(w.get("dict_access", []))
     except Exception as e:  # noqa: BLE001
         ck.broken("translator", "translator/writes.py could not read src/spox", f"{type(e).__name__}: {e}")
+    changed = lf.covered_code_changes(ck)
     ck.lean(["SpoxModel.Props.C12"], audit="SpoxModel.Audit.C12")
     if ck.thorough:
         ck.leanchecker(["SpoxModel.Props.C12"])
@@ -215,7 +216,7 @@ def run(ck: core.Check):
 
     lap("set_orders")
     # ---- oracle: histories, in this process (which has a long history of its own by now)
-    n_hist = ck.pick(650, 4000)
+    n_hist = ck.pick(1000 if changed else 650, 4000)  # code the models cover was edited: look harder
     hcases = []
     stats = {"ops": {}, "violating_histories": 0, "refs": 0}
     for _ in range(n_hist):
